@@ -115,8 +115,91 @@ def one_world(args):
     d = w.dead()
     out["dead"] = (("server" if w.s.dead else "client"), d[0][:200], d[1], d[2][-1500:]) if d else None
     out["log"] = w.replay_lines()
+    out["cops"], out["clines"] = list(w.c.ops), list(w.c.lines)
     w.close()
     return out
+
+
+def client_model_ops(cops, clines):
+    """model ops for the tunnel phase of a world run: the configuration, the state the real handshake reached (`cset` from the digest), then
+    every input the real client was fed (`ans` replaced by what read_dns_withq returned: the `rq` event; raw mode: the datagram)."""
+    mops, expect = [], []
+    started = False
+    last_state = None
+    raw = False
+    for op, line in zip(cops, clines):
+        t = op.split()
+        ev, sel, st = world.parse_cli(line)
+        if not started:
+            if t[0] == "ccfg":
+                mops.append(op); expect.append("ok")
+            elif t[:2] == ["start", "tunnel"]:
+                if last_state is None:
+                    return None
+                keys = ("cid", "rs", "enc", "dn", "lazy", "sel", "qt", "e0", "conn", "sps", "ldt", "now", "ml", "uid")
+                mops.append("cset " + " ".join("%s=%s" % (k, last_state[k] if last_state.get(k, "") != "" else " ") for k in keys if k in last_state and last_state[k] != ""))
+                expect.append("ok")
+                mops.append(op); expect.append(line)
+                started = True
+                raw = st.get("conn") == "0"
+            if st:
+                last_state = st
+            continue
+        if t[0] == "ans":
+            rq = next((e for e in ev if e[0] == "rq"), None)
+            if raw or rq is None:
+                mops.append("rawans " + t[1])
+            else:
+                mops.append("rq %s %s %s %s %s %s" % rq[1:7])
+        elif t[0] in ("tick", "tun", "ctime"):
+            mops.append(op)
+        else:
+            break
+        expect.append(line)
+        if st:
+            raw = st.get("conn") == "0"
+    return mops, expect
+
+
+def project_cli(line):
+    return " | ".join(p for p in [x.strip() for x in line.split(" | ")] if not (p.startswith("tx ") or p.startswith("rq ")))
+
+
+def client_model_diff(chk, res):
+    """run the Lean client model on the tunnel phase of every world run; returns (#ops compared, #diffs, first diff | None) or None (no driver)"""
+    drv = chk.driver()
+    if drv is None:
+        return None
+    n, nd, first = 0, 0, None
+    for r in res:
+        mo = client_model_ops(r.get("cops", []), r.get("clines", []))
+        if not mo:
+            continue
+        mops, expect = mo
+        m = vlib.run_lines(drv, mops)
+        for i, (o, e) in enumerate(zip(mops, expect)):
+            a = project_cli(e)
+            b = m.lines[i] if i < len(m.lines) else "<no-answer>"
+            n += 1
+            if a != b:
+                nd += 1
+                if first is None:
+                    first = (r["seed"], i, o, a, b, mops[:i + 1])
+                break       # after the first difference the two runs are no longer comparable
+    return n, nd, first
+
+
+def report_client_model(chk, res, prop):
+    d = client_model_diff(chk, res)
+    chk.notes["client_model_ops_compared"] = None if d is None else d[0]
+    chk.notes["client_model_diffs"] = None if d is None else d[1]
+    if d is None:
+        if not chk.violations:
+            chk.violation("model driver does not build", ["# lake build iodmodel failed"], no_input=True)
+    elif d[2] is not None and not chk.violations:
+        seed, i, o, a, b, pre = d[2]
+        chk.violation("correspondence broken (Client.cstep vs client.c tunnel phase): model and implementation differ (world seed %d, client op %d); the oracle found no violation of %s.\n op: %s\n impl:  %s\n model: %s"
+                      % (seed, i, prop, o[:200], a[:500], b[:500]), ["# correspondence Client.cstep vs client.c no longer checks; model ops up to the first difference:"] + pre, no_input=True)
 
 
 def run_worlds(jobs):
